@@ -99,8 +99,15 @@ def check(spec):
         mp, cp = 0.5, 0.5
         kw.update(shuffle_mode="flip", lamb_mode="batch", apply_mode="batch")
     else:
+        cls = KDMixCollator
+        if spec.get("user_shuffle"):
+            # a user subclass that overrides the public partner hook (here: roll by two): image and label still share the partner
+            class RollTwoCollator(KDMixCollator):
+                def shuffle(self, item, permutation):
+                    return item.roll(shifts=2, dims=0), None
+            cls = RollTwoCollator
         try:
-            coll = KDMixCollator(dataset_mode=mode, return_ctx=True, **kw)
+            coll = cls(dataset_mode=mode, return_ctx=True, **kw)
         except AssertionError:
             raise Refused("constructor assertion")
     coll.set_rng(np.random.default_rng(spec["seed"]))
@@ -175,9 +182,11 @@ def check(spec):
     if B > 1:
         for i in range(B):
             pres = (i - 1) % B if sm == "roll" else B - 1 - i if sm == "flip" else None
+            if spec.get("user_shuffle") and not spec.get("mae"):
+                pres = (i - 2) % B
             if pres is not None and pres not in cands[i]:
                 raise Violation(f"partner-not-the-prescribed-one:{sm}", f"row {i}: decoded partners {cands[i]}, {sm} prescribes {pres}")
-        if sm == "random" and not _match(cands, B):
+        if sm == "random" and not (spec.get("user_shuffle") and not spec.get("mae")) and not _match(cands, B):
             raise Violation("random-partners-not-a-permutation", str(cands))
     if Y is not None:
         if K > 1:
@@ -213,7 +222,8 @@ def spec_s(draw, mae=False):
             "shuffle_mode": sm, "mixup_p": draw(st.sampled_from([1.0, 0.0, 0.5, 0.3, 0.8])),
             "mixup_alpha": draw(st.sampled_from([0.1, 0.8, 1.0, 4.0])), "cutmix_alpha": draw(st.sampled_from([0.1, 1.0, 4.0])),
             "seed": draw(st.integers(0, 2 ** 32 - 1)), "mae": mae,
-            "label_dtype": draw(st.sampled_from(["float32", "float32", "int64", "float64"]))}
+            "label_dtype": draw(st.sampled_from(["float32", "float32", "int64", "float64"])),
+            "user_shuffle": (not mae) and draw(st.integers(0, 4)) == 0}
 
 
 FACETS = [
